@@ -5,6 +5,7 @@ import (
 	"fmt"
 	"os"
 	"path/filepath"
+	"runtime"
 	"sort"
 	"strings"
 	"sync"
@@ -113,7 +114,7 @@ func runObligations(results []*FuncResult, dir string, timeoutS, seed int, all b
 	// an obligation that discharged on the pinned tree and ran out of time now may
 	// be the victim of a loaded machine (the limit is wall-clock): it gets one
 	// more, sequential, attempt with a longer limit before it counts as failed
-	if retryFilter != nil {
+	if retryFilter != nil && machineLoaded() {
 		n := 0
 		for _, j := range jobs {
 			if j.o.Cover || j.o.Result == nil || j.o.Result.Status != "timeout" || !retryFilter(j.o.Name) {
@@ -130,6 +131,18 @@ func runObligations(results []*FuncResult, dir string, timeoutS, seed int, all b
 			}
 		}
 	}
+}
+
+// machineLoaded: the one-minute load average exceeds three quarters of the cores,
+// i.e. the wall-clock limits of this run were competing with other work.
+func machineLoaded() bool {
+	d, err := os.ReadFile("/proc/loadavg")
+	if err != nil {
+		return true
+	}
+	var l1 float64
+	fmt.Sscanf(string(d), "%f", &l1)
+	return l1 > 0.75*float64(runtime.NumCPU())
 }
 
 // retryFilter selects the obligations that get a second attempt after a timeout.
